@@ -5,6 +5,7 @@ package main
 
 import (
 	"fmt"
+	"os"
 	"sort"
 	"strings"
 
@@ -177,6 +178,9 @@ func sweep(p program, unit *code.Unit) (res sweepResult) {
 	res.ref = ref
 	res.u = ref.used
 	curL, curRel, curObs = refL, fmt.Sprintf("reference run L=%d", refL), &ref
+	if os.Getenv("C05_DEBUG") != "" {
+		fmt.Fprintf(os.Stderr, "DBG %s reference: %s\n", p.shape(), ref.brief())
+	}
 	if !ref.sameAs(&ref2) {
 		add("nondeterministic", firstEmitTag(ref2.ev, divergence(ref.ev, ref2.ev)), "two reference runs differ; second: "+ref2.brief())
 	}
@@ -229,6 +233,7 @@ func sweep(p program, unit *code.Unit) (res sweepResult) {
 		switch {
 		case o.status == "gopanic" || ranAfter:
 			// already condemned; what follows the first offence is a consequence
+			intercepted = true
 		case expectKilled && !isPrefix:
 			// the run left the path of the unlimited run although L <= u: something caught the kill
 			intercepted = true
